@@ -45,7 +45,7 @@ def truth(I, run, v: Value, node, fork=True) -> Optional[bool]:
     # Sym / App
     k = run.kind_of(v)
     if k in ("bytes", "str"):
-        ln = App("len", (v,), "int")
+        ln = _b_len(I, run, [v], {}, node)
         return decide_cmp(I, run, ">", ln, C(0), node, fork)
     if k == "int":
         return decide_cmp(I, run, "!=", v, C(0), node, fork)
@@ -476,6 +476,18 @@ def _as_const(v):
     return v
 
 
+def _rng(run, v):
+    if _num(v):
+        return (v.v, v.v)
+    if isinstance(v, (Sym, App)):
+        f = run.facts.get(v.key())
+        if f is not None:
+            return (f.lo, f.hi)
+        if isinstance(v, App) and v.op == "len":
+            return (0, INF)
+    return None
+
+
 def binop(I, run, op, a: Value, b: Value, node) -> Value:
     a, b = I.resolve(run, a), I.resolve(run, b)
     name = _BINNAME[type(op)]
@@ -518,11 +530,9 @@ def binop(I, run, op, a: Value, b: Value, node) -> Value:
     if simp is not res:
         return simp
     # interval arithmetic for + and - with a constant
-    fa = run.facts.get(a.key()) if isinstance(a, (Sym, App)) else None
-    fb = run.facts.get(b.key()) if isinstance(b, (Sym, App)) else None
-    if name in ("+", "-") and (fa or _num(a)) and (fb or _num(b)):
-        alo, ahi = (a.v, a.v) if _num(a) else (fa.lo, fa.hi)
-        blo, bhi = (b.v, b.v) if _num(b) else (fb.lo, fb.hi)
+    ra, rb = _rng(run, a), _rng(run, b)
+    if name in ("+", "-") and ra and rb:
+        (alo, ahi), (blo, bhi) = ra, rb
         f = run.fact(res)
         if name == "+":
             f.lo, f.hi = max(f.lo, alo + blo), min(f.hi, ahi + bhi)
